@@ -100,13 +100,20 @@ def strategy_src(tag, style):
         return f"{{'deserialize': mk_de({tag!r})}}"
     if style == "obj":
         return f"Strat({tag!r})"
+    if style in ENGINES:
+        return f"{{'deserialize': {ENGINES[style]!r}}}"     # a parsing-engine NAME instead of a callable (date types only)
     return "pass_through"
+
+
+ENGINES = {"eng_ciso": "ciso8601", "eng_pend": "pendulum"}
+DATE_FLAVOURS = ("ann_date", "ann_unhashable_date", "in_list", "in_ann_list", "in_ann_optional", "in_dict")
+ENGINE_WIRE = "2020-01"      # accepted by both engines (first of the month), rejected by date.fromisoformat
 
 
 def defines(style, direction):
     if style == "dict_ser":
         return direction == "S"
-    if style == "dict_de":
+    if style == "dict_de" or style in ENGINES:
         return direction == "D"
     return True
 
@@ -135,6 +142,11 @@ def run_case(seed, tier, rec, st):
                 styles[u] = rng.choice(["obj", "obj", "dict", "pass_through", "dict_ser", "dict_de"])
             else:
                 styles[u] = rng.choice(["dict", "dict", "obj", "pass_through", "dict_ser", "dict_de"])
+            if flavour in DATE_FLAVOURS and rng.random() < 0.2:
+                styles[u] = rng.choice(list(ENGINES))
+        engine_wire = any(v in ENGINES for v in styles.values())
+        if engine_wire:
+            wire_src = wire_src.replace("2020-01-02", ENGINE_WIRE)
 
         def reg(source):
             items = []
@@ -147,6 +159,8 @@ def run_case(seed, tier, rec, st):
             stl = styles[("field_opt", None)]
             if stl == "pt":
                 meta += ["serialize=pass_through", "deserialize=pass_through"]
+            elif stl in ENGINES:
+                meta.append(f"deserialize={ENGINES[stl]!r}")
             else:
                 if stl in ("both", "ser"):
                     meta.append("serialize=mk_ser('field_opt')")
@@ -201,6 +215,8 @@ def run_case(seed, tier, rec, st):
                     return False
                 stl = styles[u]
                 if u[0] == "field_opt":
+                    if stl in ENGINES:
+                        return direction == "D"
                     return stl in ("both", "pt") or (stl == "ser" and direction == "S") or (stl == "de" and direction == "D")
                 return defines(stl, direction)
             if live(("field_opt", None)):
@@ -266,6 +282,10 @@ def run_case(seed, tier, rec, st):
                     else:
                         out = BasicDecoder(M, default_dialect=mod.DD).decode({"x": wire}).x
             except Exception as e:
+                if engine_wire and direction == "D" and w is None and type(e).__name__ in ("InvalidFieldValue", "ValueError"):
+                    rec.count("agree")          # no registration in effect: the built-in parser refuses the month-only text
+                    rec.count("engine_wire_refused_by_builtin")
+                    continue
                 rec.violation(f"exception:{direction}:{type(e).__name__}", det(error=f"{type(e).__name__}: {e}"[:300], expected_winner=repr(w)), facts)
                 continue
             given = value if direction == "S" else wire
@@ -275,7 +295,18 @@ def run_case(seed, tier, rec, st):
                 if not shape_ok:
                     rec.violation(f"wrong-level:{direction}", det(direction=direction, expected_winner=repr(w), observed="container shape " + repr(out)[:100]), facts)
                     continue
-            if w is None:
+            if w is None and engine_wire and direction == "D":
+                ok, got_desc = False, "built-in parser accepted " + repr(out)[:100]
+            elif w is not None and styles[w] in ENGINES:
+                import datetime as _dt
+                first = _dt.date(2020, 1, 1)
+                if styles[w] == "eng_ciso":
+                    ok = type(out) is _dt.date and out == first
+                else:
+                    ok = type(out).__module__.startswith("pendulum") and isinstance(out, _dt.date) and out == first
+                got_desc = f"{type(out).__module__}.{type(out).__name__} {out!r}"[:120]
+                rec.count("engine_name_wins")
+            elif w is None:
                 # built-in rendering
                 exp_builtin = builtin(flavour, direction, given)
                 ok = type(out) is type(exp_builtin) and out == exp_builtin
